@@ -1023,6 +1023,198 @@ func TestCipherReaderCopyInterleaved(t *testing.T) {
 	})
 }
 
+// fancyDst is a destination that offers the optional interfaces type-switch
+// fast paths look for; whatever method is used, the bytes land in one stream.
+type fancyDst struct {
+	data []byte
+	via  map[string]int
+}
+
+func (f *fancyDst) Write(p []byte) (int, error) {
+	f.via["Write"]++
+	f.data = append(f.data, p...)
+	return len(p), nil
+}
+
+func (f *fancyDst) WriteString(s string) (int, error) {
+	f.via["WriteString"]++
+	f.data = append(f.data, s...)
+	return len(s), nil
+}
+
+func (f *fancyDst) WriteByte(b byte) error {
+	f.via["WriteByte"]++
+	f.data = append(f.data, b)
+	return nil
+}
+
+func (f *fancyDst) ReadFrom(r io.Reader) (int64, error) {
+	f.via["ReadFrom"]++
+	var n int64
+	buf := make([]byte, 512)
+	for {
+		k, err := r.Read(buf)
+		f.data = append(f.data, buf[:k]...)
+		n += int64(k)
+		if err == io.EOF {
+			return n, nil
+		}
+		if err != nil {
+			return n, err
+		}
+	}
+}
+
+// The state of the destination is none of the writer's business: bytes that
+// were in it before (a frame header), bytes the owner takes out between two
+// writes, bytes the owner puts in between two writes. What the CipherWriter
+// adds is payload XOR key at the writer's own running offset.
+func TestCipherWriterDestinationState(t *testing.T) {
+	hx.Check(t, 8, func(t *rapid.T) {
+		n := drawLen(t, "len")
+		if n > 6000 {
+			n = n % 6000
+		}
+		key := gen.Key(t, "key")
+		content := pattern(n, drawSeed(t))
+		caller := append([]byte(nil), content...)
+		pieces := gen.Split(t, "split", caller, 6)
+		kind := rapid.SampledFrom([]string{"recorder", "bytes.Buffer", "bytes.Buffer", "bytes.Buffer", "bufio.Writer", "fancy"}).Draw(t, "destination")
+		prefill := rapid.SampledFrom([]int{0, 0, 1, 2, 3, 4, 5, 6, 7, 14}).Draw(t, "prefill")
+		viaReset := rapid.Bool().Draw(t, "viaReset")
+		hx.Eval()
+
+		var (
+			rec       = tx.NewRec()
+			buf       bytes.Buffer
+			bw        *bufio.Writer
+			fancy     = &fancyDst{via: map[string]int{}}
+			dst       io.Writer
+			collected []byte // taken out of the bytes.Buffer by its owner
+		)
+		switch kind {
+		case "recorder":
+			dst = rec
+		case "bytes.Buffer":
+			dst = &buf
+		case "bufio.Writer":
+			bw = bufio.NewWriterSize(rec, rapid.IntRange(16, 100).Draw(t, "bufioSize"))
+			dst = bw
+		case "fancy":
+			dst = fancy
+		}
+		// sink is the stream as its final consumer sees it
+		sink := func() []byte {
+			switch kind {
+			case "bytes.Buffer":
+				return append(append([]byte(nil), collected...), buf.Bytes()...)
+			case "fancy":
+				return fancy.data
+			}
+			return rec.Bytes()
+		}
+		var want []byte
+		raw := func(k int, tag byte) {
+			b := bytes.Repeat([]byte{tag}, k)
+			if m, err := dst.Write(b); m != k || err != nil {
+				t.Fatalf("harness write to the destination = (%d, %v)", m, err)
+			}
+			want = append(want, b...)
+		}
+		raw(prefill, 0xFE)
+
+		var cw *wsutil.CipherWriter
+		if viaReset {
+			cw = wsutil.NewCipherWriter(nil, [4]byte{0xde, 0xad, 0xbe, 0xef})
+			cw.Reset(dst, key)
+		} else {
+			cw = wsutil.NewCipherWriter(dst, key)
+		}
+		fed, drains, raws, oddState := 0, 0, 0, prefill%4 != 0
+		for i, p := range pieces {
+			if i > 0 {
+				// the owner of the destination acts between two writes
+				switch act := rapid.IntRange(0, 5).Draw(t, "between"); {
+				case act <= 1 && kind == "bytes.Buffer" && buf.Len() > 0:
+					d := rapid.IntRange(1, buf.Len()).Draw(t, "drain")
+					switch rapid.IntRange(0, 2).Draw(t, "drainHow") {
+					case 0:
+						collected = append(collected, buf.Next(d)...)
+					case 1:
+						tmp := make([]byte, d)
+						k, _ := buf.Read(tmp)
+						collected = append(collected, tmp[:k]...)
+					default:
+						d = buf.Len()
+						collected = append(collected, buf.Bytes()...)
+						buf.Reset()
+					}
+					drains++
+					if d%4 != 0 {
+						oddState = true
+					}
+				case act == 2:
+					k := rapid.IntRange(1, 7).Draw(t, "rawBetween")
+					raw(k, 0xFD)
+					raws++
+					if k%4 != 0 {
+						oddState = true
+					}
+				case act == 3 && kind == "bufio.Writer":
+					if err := bw.Flush(); err != nil {
+						t.Fatalf("flush: %v", err)
+					}
+				}
+			}
+			var k int64
+			var err error
+			op := rapid.SampledFrom([]string{"Write", "Write", "Write", "Copy(tx.Src)"}).Draw(t, "op")
+			if op == "Write" {
+				var kk int
+				kk, err = cw.Write(p)
+				k = int64(kk)
+			} else {
+				k, err = io.Copy(cw, tx.NewSrc(p, nil))
+			}
+			if err != nil || k != int64(len(p)) {
+				t.Fatalf("%s of %d bytes to %s = (%d, %v)", op, len(p), kind, k, err)
+			}
+			want = append(want, ref.Mask(p, key, int64(fed))...)
+			fed += len(p)
+			if kind != "bufio.Writer" {
+				if got := sink(); !bytes.Equal(got, want) {
+					t.Fatalf("%s\ndestination=%s prefill=%d key=%x pieces=%v (after piece %d; %d bytes taken out so far, %d raw insertions)", diffMsg("stream at the destination differs: what the CipherWriter adds must be payload XOR key at the writer's running offset", got, want), kind, prefill, key, pieceLens(pieces), i, len(collected), raws)
+				}
+			}
+		}
+		if bw != nil {
+			if err := bw.Flush(); err != nil {
+				t.Fatalf("flush: %v", err)
+			}
+		}
+		if got := sink(); !bytes.Equal(got, want) {
+			t.Fatalf("%s\ndestination=%s prefill=%d key=%x pieces=%v", diffMsg("stream at the destination differs from the reference", got, want), kind, prefill, key, pieceLens(pieces))
+		}
+		if !bytes.Equal(caller, content) {
+			t.Fatalf("CipherWriter modified the caller's bytes (destination %s)", kind)
+		}
+		hx.Class(fmt.Sprintf("writer-dst-state/%s/prefill%%4=%d", kind, prefill%4))
+		hx.Class(fmt.Sprintf("writer-dst-state/%s/drains=%d/rawInsertions=%d", kind, min(drains, 2), min(raws, 2)))
+		if kind == "fancy" {
+			for _, m := range []string{"Write", "WriteString", "WriteByte", "ReadFrom"} {
+				if fancy.via[m] > 0 {
+					hx.Class("writer-dst-state/fancy/method-used=" + m)
+				}
+			}
+		}
+		if n >= 8 && oddState {
+			hx.NonTrivial(hx.Hash("writer-dst-state", kind, n, prefill, drains, raws, fmt.Sprint(pieceLens(pieces))), func() interface{} {
+				return map[string]interface{}{"api": "CipherWriter to " + kind, "len": n, "key": fmt.Sprintf("%x", key), "prefilled": prefill, "drains_between_writes": drains, "raw_insertions": raws, "pieces": pieceLens(pieces)}
+			})
+		}
+	})
+}
+
 // flaky is a destination that accepts only Accept[i] mod (len(p)+1) bytes of
 // call i and reports an error for that call — once; every other call is
 // accepted whole.
